@@ -23,6 +23,7 @@ STRENGTHENED = {
     "C01-agent-2": "would have been MISSED (no clause repeated a literal; the author's own 150 k random enumerations without repeats saw nothing); caught after the duplicate-literal / tautology clause shapes were added",
     "C02-agent2-1": "MISSED at first by the C02 check (the C01 check reported it as bad_model); C02 now also reports a returned non-model (`answer_is_not_a_model`): what came back is not 'a model'",
     "C02-agent2-3": "would have been MISSED (every clause was passed as its own fresh list); caught after equal clauses are passed as one shared list object / as tuples and repeated clauses were generated",
+    "C17-agent2-3": "would have been MISSED (every custom universe contained the unit columns); caught after the slice of column pools that cannot produce a demanded item was added (on the clean tree solve_cg raises OverflowError there, which presents no plan and is counted as a probe)",
     "C17-agent-3": "MISSED at first (only integer roll widths were generated); caught after fractional roll widths were added",
 }
 WHAT = {}
